@@ -90,6 +90,24 @@ Proof.
 Qed.
 Print Assumptions getitem_featureless.
 
+(* "agreeing row-for-row with selecting from each column separately": looking a column up in the selected frame
+   gives the selected rows of that column (getitem_coherent + C08 get_col_feat_spec). *)
+Theorem getitem_then_get_col_feat : forall n vs nm yy ov ix pos s v cn j name,
+  frame_wf n vs yy ov -> names_ok vs nm -> NoDup (flat_map snd nm) ->
+  py_positions n (as_list_index ix) = Some pos ->
+  In (s, v) vs -> alookup stype_eqb s nm = Some cn -> nth_error cn j = Some name ->
+  exists f', tf_getitem (frame_of vs nm yy ov) ix = Some f'
+             /\ tf_get_col_feat f' name = Some (feat_of_view (vcol j (vsel pos v)), s).
+Proof.
+  intros n vs nm yy ov ix pos s v cn j name Hwf Hnm Hnd E Hin Hcn Hj.
+  exists (sel_frame pos vs nm yy ov). split; [exact (getitem_coherent n vs nm yy ov ix pos Hwf E)|].
+  unfold sel_frame. apply (get_col_feat_spec_proof (length pos) _ nm _ _ s (vsel pos v) cn j name); try assumption.
+  - apply (frame_wf_sel n); [exact Hwf|]. eapply py_positions_bound; exact E.
+  - apply names_ok_sel. exact Hnm.
+  - apply in_map_iff. exists (s, v). split; [reflexivity|exact Hin].
+Qed.
+Print Assumptions getitem_then_get_col_feat.
+
 (* ------------------------------------------------------------------ *)
 (* Non-vacuity: a 3-row frame with one feature of every storage kind, a target
    and an explicit row count is well-formed; selecting [2, 0] and then the
